@@ -44,7 +44,7 @@ AMOUNT == 1000000
 RATE == 10000
 OPENFEE == 1000
 Cfg == [chain |-> CHAIN, allow_new |-> TRUE, accept_all |-> TRUE, allow_peer |-> FALSE, suspect_peer |-> FALSE,
-        min_swap_msat |-> 100000000, btc_enabled |-> TRUE, lbtc_enabled |-> TRUE, rate_ppm |-> RATE, has_peer_rate |-> FALSE,
+        min_swap_msat |-> cf.minmsat, btc_enabled |-> TRUE, lbtc_enabled |-> TRUE, rate_ppm |-> RATE, has_peer_rate |-> FALSE,
         peer_rate |-> 0, wallet_sat |-> 100000000, open_fee_sat |-> OPENFEE, spendable_msat |-> 2000000000,
         receivable_msat |-> 2000000000, dup_pay |-> "cln", swap_vout |-> 0]
 
@@ -90,7 +90,7 @@ NoCrash == [gate |-> "", occ |-> 0, when |-> ""]
 NoPlan == [faults |-> <<>>, crash |-> NoCrash]
 NdInit == [up |-> TRUE, epoch |-> 1, mem |-> <<>>, reg |-> {}, disk |-> <<>>, timers |-> {}, notif |-> {}, wconf |-> {}, wcsv |-> {},
            senders |-> {}, spentout |-> {}, suspfile |-> FALSE, sentn |-> <<>>, nsteps |-> 0, nfaults |-> 0, ncrashes |-> 0,
-           nswaps |-> 0, opens |-> <<>>, q |-> <<>>, peerinv |-> <<>>, keyn |-> 0, ptx |-> 0, ptxs |-> <<>>, ver |-> "current", unrecovered |-> FALSE, phase |-> "idle", poll |-> FALSE,
+           nswaps |-> 0, opens |-> <<>>, q |-> <<>>, peerinv |-> <<>>, keyn |-> 0, ptx |-> 0, ptxs |-> <<>>, ver |-> "current", unrecovered |-> FALSE, tipadd |-> 0, phase |-> "idle", poll |-> FALSE,
            occ |-> <<>>, plan |-> NoPlan, res |-> "ok", recover |-> FALSE, nrestarts |-> 0, a |-> ""]
 
 Ctx(n, plan) == [nd |-> n, evs |-> <<>>, occ |-> <<>>, plan |-> plan, crashed |-> FALSE, go |-> "", sid |-> "none", out |-> "", res |-> "ok", done |-> FALSE]
@@ -134,7 +134,7 @@ SendCancelRaw(x, to, sid, hasid) == SendMsg(x, "cancel", to, sid, hasid, [text |
 (* ------------------------------------------------------------ actions -- *)
 Fail(x, msg) == LET d == D(x) IN Out(SetD(x, [d EXCEPT !.cancel_msg = IF @ = "" THEN msg ELSE @]), "Event_ActionFailed")
 Succ(x) == Out(x, "Event_ActionSucceeded")
-Tip(x, chain) == o.tip[chain] + Get(x.nd, "tipadd", 0)
+Tip(x, chain) == o.tip[chain] + x.nd.tipadd
 ArmTimer(x) == [x EXCEPT !.nd.timers = @ \cup {[sid |-> x.sid, due |-> o.now + 10]}]
 Enq(x, cb) == [x EXCEPT !.nd.q = Append(@, cb)]
 PayStatus(x, sid) == Get(x.nd.peerinv, <<sid, "status">>, Claim(o, sid).status)
@@ -321,11 +321,15 @@ PayLoop(x, k) ==
      ELSE IF MaxDeltaOf(d) # 0 /\ (inv.cltv < 0 \/ inv.cltv + 1 > MaxDeltaOf(d)) THEN PayLoop(g2, k + 1)
      ELSE
      LET payable == inv.payee = d.peer /\ Get(inv, "payable", TRUE)
-         oc == IF g2.go = "" /\ ~payable THEN "fail" ELSE IF g2.go = "err_settled" /\ ~payable THEN "fail" ELSE IF g2.go = "err" THEN "fail" ELSE g2.go
+         adv == g2.go = "fail_adv"      \* the attempt fails and meanwhile the chain advances by a whole payment window
+         oc == IF g2.go = "" /\ ~payable THEN "fail" ELSE IF g2.go = "err_settled" /\ ~payable THEN "fail" ELSE IF g2.go \in {"err", "fail_adv"} THEN "fail" ELSE g2.go
          nst == CASE oc = "" -> "succeeded" [] oc = "err_settled" -> "succeeded" [] oc = "err_pending" -> "inflight" [] OTHER -> "failed"
          e == [ev |-> "ln.htlc", sid |-> d.sid, hash |-> inv.hash, msat |-> inv.msat, maxdelta |-> MaxDeltaOf(d), cltv |-> inv.cltv,
                delta |-> inv.cltv + 1, payee |-> inv.payee, res |-> IF oc = "" THEN "ok" ELSE oc]
-         g3 == After([Emit(g2, e) EXCEPT !.nd.peerinv = Put(@, <<d.sid, "status">>, nst)], "ln.payclaim")
+         ge == Emit(g2, e)
+         ga == IF adv THEN [Emit(ge, [ev |-> "block", chain |-> DChain(d), tip |-> Tip(ge, DChain(d)) + WindowOf(d), n |-> WindowOf(d), included |-> <<>>, conf_at |-> Tip(ge, DChain(d)) + 1])
+                             EXCEPT !.nd.tipadd = @ + WindowOf(d)] ELSE ge
+         g3 == After([ga EXCEPT !.nd.peerinv = Put(@, <<d.sid, "status">>, nst)], "ln.payclaim")
      IN IF g3.crashed THEN g3 ELSE IF oc = "" THEN Succ(SetD(g3, [d EXCEPT !.preimage = TRUE])) ELSE PayLoop(g3, k + 1)
 
 ActValidateTxAndPay(x) ==
@@ -610,7 +614,7 @@ AdvMsgs(n, s) ==
   \cup {M([BlankMsg EXCEPT !.kind = "swap_out_agreement", !.pubkey = "short"])}
 \* junk on the wire: peerswap type numbers with malformed payloads, foreign / even / non-hex type strings, oversized payloads
 RawMsgs == {[BlankMsg EXCEPT !.kind = "raw", !.raw_type = t, !.raw = r] :
-              t \in {"a455", "a457", "a459", "a45b", "a45d", "a45f", "a461"}, r \in {"null", "{}", "[1]", "{\"swap_id\":null}", "{\"swap_id\":\"zz\"}", "big"}}
+              t \in {"a455", "a457", "a459", "a45b", "a45d", "a45f", "a461"}, r \in {"null", "{}", "[1]", "{\"swap_id\":null}", "{\"swap_id\":\"zz\"}", "{\"swap_id\":\"\"}", "{\"swap_id\":\"abcd\"}", "big"}}
            \cup {[BlankMsg EXCEPT !.kind = "raw", !.raw_type = t, !.raw = "{}"] : t \in {"a456", "a463", "a465", "ffff", "zz", "", "1"}}
 NewReqs == {[BlankMsg EXCEPT !.kind = k] : k \in (INITS \cap ReqKinds)}
 AdvNewReqs ==
@@ -628,11 +632,11 @@ MsgMenu(n) ==
 
 FaultGates == {"msg.send", "chain.height", "ln.payclaim", "ln.payfee", "wallet.open", "wallet.spend.preimage", "wallet.spend.csv",
                "wallet.spend.coop", "ln.invoice", "validate", "persist", "ln.decode", "ln.probe", "wallet.fee"}
-FaultOutcomes(g) == IF g = "ln.payclaim" THEN {"fail", "err_pending", "err_settled"} ELSE IF g = "ln.probe" THEN {"fail"} ELSE {"err"}
+FaultOutcomes(g) == IF g = "ln.payclaim" THEN {"fail", "err_pending", "err_settled", "fail_adv"} ELSE IF g = "ln.probe" THEN {"fail"} ELSE {"err"}
 CrashGates == {"persist", "wallet.open", "ln.payclaim", "ln.payfee", "msg.send", "wallet.spend.preimage", "wallet.spend.csv", "ln.invoice", "chain.height"}
 Plans(n) ==
   {NoPlan}
-  \cup (IF n.nfaults < MAXFAULTS THEN {[faults |-> (g :> <<oc, rep>>), crash |-> NoCrash] : g \in FaultGates, oc \in {"err", "fail", "err_pending", "err_settled"}, rep \in BOOLEAN} ELSE {})
+  \cup (IF n.nfaults < MAXFAULTS THEN {[faults |-> (g :> <<oc, rep>>), crash |-> NoCrash] : g \in FaultGates, oc \in {"err", "fail", "err_pending", "err_settled", "fail_adv"}, rep \in BOOLEAN} ELSE {})
   \cup (IF n.ncrashes < MAXCRASHES THEN {[faults |-> <<>>, crash |-> [gate |-> g, occ |-> k, when |-> w]] : g \in CrashGates, k \in {1, 2, 3}, w \in {"before", "after"}} ELSE {})
 AfterGates == {"persist", "wallet.open", "ln.payclaim", "ln.payfee", "msg.send", "wallet.spend.preimage", "wallet.spend.csv"}
 PlanOK(p) == (\A g \in DOMAIN p.faults : p.faults[g][1] \in FaultOutcomes(g)) /\ (p.crash.when = "after" => p.crash.gate \in AfterGates)
@@ -788,9 +792,10 @@ Drain ==
          res == IF nd.res # "ok" THEN nd.res ELSE IF x2.res \in {"crash", "panic"} THEN x2.res ELSE "ok"
          evs == x2.evs \o <<[ev |-> "ret", a |-> nd.a, res |-> res, up |-> x2.nd.up], Snapshot(x2.nd)>>
          f == Fold(o, viol, evs)
-     IN /\ PlanHit(nd.plan, x2.occ) \/ nd.plan = NoPlan
+     IN \* a plan that is never reached is pruned - except failing services during recovery: a change of the code may add service calls to a recovery path
+        /\ PlanHit(nd.plan, x2.occ) \/ nd.plan = NoPlan \/ (nd.a \in {"restart", "recover"} /\ nd.plan.crash.gate = "")
         /\ o' = f.o /\ viol' = f.v
-        /\ nd' = [x2.nd EXCEPT !.phase = "idle", !.poll = FALSE, !.recover = FALSE, !.occ = <<>>, !.plan = NoPlan, !.res = "ok", !.q = <<>>]
+        /\ nd' = [x2.nd EXCEPT !.phase = "idle", !.tipadd = 0, !.poll = FALSE, !.recover = FALSE, !.occ = <<>>, !.plan = NoPlan, !.res = "ok", !.q = <<>>]
         /\ UNCHANGED <<sched, cf>>
 
 Init == /\ cf \in CONFIGS /\ o = ApplyEv(ObsInit, [ev |-> "reset", cfg |-> Cfg]) /\ viol = {} /\ nd = [NdInit EXCEPT !.ver = cf.ver] /\ sched = <<>>
